@@ -75,9 +75,17 @@ type boundsCtx struct {
 	factMem map[*ssa.BasicBlock][]lin
 	rngBusy map[atom]bool
 	linMemo map[ssa.Value]lin
+	einfo   map[atom]einfo
 	fitBusy map[ssa.Value]bool
 	// substitution of parameters by caller-side terms (caller-established rule)
 	visitingPhi map[*ssa.Phi]bool
+}
+
+// einfo: an etype-dependent product or quotient: left (op) right, where right is made of constant
+// methods of one etype value only — linear once the etype is fixed.
+type einfo struct {
+	op          token.Token
+	left, right lin
 }
 
 type qinfo struct {
@@ -87,7 +95,7 @@ type qinfo struct {
 
 func newBoundsCtx(w *World, fn *ssa.Function) *boundsCtx {
 	bc := &boundsCtx{w: w, fn: fn, intBits: 64, loadRep: map[*ssa.UnOp]ssa.Value{}, qinfo: map[atom]qinfo{}, names: map[atom]string{},
-		factMem: map[*ssa.BasicBlock][]lin{}, rngBusy: map[atom]bool{}, visitingPhi: map[*ssa.Phi]bool{}, linMemo: map[ssa.Value]lin{}, fitBusy: map[ssa.Value]bool{}}
+		factMem: map[*ssa.BasicBlock][]lin{}, rngBusy: map[atom]bool{}, visitingPhi: map[*ssa.Phi]bool{}, linMemo: map[ssa.Value]lin{}, fitBusy: map[ssa.Value]bool{}, einfo: map[atom]einfo{}}
 	if w.GOARCH == "386" || w.GOARCH == "arm" {
 		bc.intBits = 32
 	}
@@ -581,6 +589,20 @@ func (bc *boundsCtx) lin1(v ssa.Value) lin {
 				return out
 			}
 		case token.MUL:
+			if _, isC := constInt(x.Y); !isC {
+				if _, isC2 := constInt(x.X); !isC2 {
+					l, r := bc.lin(x.X), bc.lin(x.Y)
+					if bc.pureEtype(l) && !bc.pureEtype(r) {
+						l, r = r, l
+					}
+					if bc.pureEtype(r) && bits >= 63 && !uns {
+						a := atom{kind: 'e', s: "(" + bc.linString(l) + ")*(" + bc.linString(r) + ")"}
+						bc.einfo[a] = einfo{token.MUL, l, r}
+						bc.names[a] = a.s
+						return linAtom(a)
+					}
+				}
+			}
 			if c, ok := constInt(x.Y); ok {
 				out := linConst(0).add(bc.lin(x.X), c)
 				if bc.noWrap(out, bits, uns) {
@@ -600,6 +622,15 @@ func (bc *boundsCtx) lin1(v ssa.Value) lin {
 				}
 			}
 		case token.QUO, token.SHR:
+			if _, isC := constInt(x.Y); !isC && x.Op == token.QUO && bits >= 63 && !uns {
+				if r := bc.lin(x.Y); bc.pureEtype(r) {
+					l := bc.lin(x.X)
+					a := atom{kind: 'e', s: "(" + bc.linString(l) + ")/(" + bc.linString(r) + ")"}
+					bc.einfo[a] = einfo{token.QUO, l, r}
+					bc.names[a] = a.s
+					return linAtom(a)
+				}
+			}
 			c, ok := constInt(x.Y)
 			if ok && x.Op == token.SHR {
 				if c < 0 || c > 31 {
@@ -784,7 +815,7 @@ func (bc *boundsCtx) calleeConstLen(f *ssa.Function, depth int) (int64, bool) {
 		return 0, false
 	}
 	cb := &boundsCtx{w: bc.w, fn: f, intBits: bc.intBits, loadRep: map[*ssa.UnOp]ssa.Value{}, qinfo: map[atom]qinfo{}, names: map[atom]string{},
-		factMem: map[*ssa.BasicBlock][]lin{}, rngBusy: map[atom]bool{}, visitingPhi: map[*ssa.Phi]bool{}, linMemo: map[ssa.Value]lin{}, fitBusy: map[ssa.Value]bool{}}
+		factMem: map[*ssa.BasicBlock][]lin{}, rngBusy: map[atom]bool{}, visitingPhi: map[*ssa.Phi]bool{}, linMemo: map[ssa.Value]lin{}, fitBusy: map[ssa.Value]bool{}, einfo: map[atom]einfo{}}
 	cb.r = bc.r
 	var n int64 = -1
 	for _, b := range f.Blocks {
@@ -869,6 +900,8 @@ func (bc *boundsCtx) atomRange(a atom) (lo, hi int64, hasLo, hasHi bool) {
 			return 0, 0, false, false
 		}
 		return lo, hi, true, true
+	case 'e':
+		return
 	case 'c':
 		lo, hasLo = 0, true
 		hi, hasHi = int64(1)<<40, true
@@ -947,6 +980,7 @@ func (bc *boundsCtx) atomRange(a atom) (lo, hi int64, hasLo, hasHi bool) {
 		// the web of phis feeding x; its leaves are the non-phi inputs
 		web := map[*ssa.Phi]bool{}
 		var leaves []lin
+		var leafVals []ssa.Value
 		var collect func(p *ssa.Phi)
 		collect = func(p *ssa.Phi) {
 			web[p] = true
@@ -958,13 +992,24 @@ func (bc *boundsCtx) atomRange(a atom) (lo, hi int64, hasLo, hasHi bool) {
 					continue
 				}
 				leaves = append(leaves, bc.lin(e))
+				leafVals = append(leafVals, e)
 			}
 		}
 		collect(x)
 		okAllLo, okAllHi := true, true
 		var mlo, mhi int64
-		first := true
-		for _, le := range leaves {
+		haveLo, haveHi := false, false
+		addLo := func(l int64) {
+			if !haveLo || l < mlo {
+				mlo, haveLo = l, true
+			}
+		}
+		addHi := func(h int64) {
+			if !haveHi || h > mhi {
+				mhi, haveHi = h, true
+			}
+		}
+		for li, le := range leaves {
 			// inductive leaves: (a phi of the web) + d
 			inductive := false
 			for a2, c := range le.t {
@@ -979,11 +1024,43 @@ func (bc *boundsCtx) atomRange(a atom) (lo, hi int64, hasLo, hasHi bool) {
 					if hasWeb {
 						break
 					}
-					if l, ok := bc.lower(d); !ok || l < 0 {
-						okAllLo = false
+					dl, okdl := bc.lower(d)
+					dh, okdh := bc.upper(d)
+					// a step in the "wrong" direction is fine when a branch condition dominating the
+					// step bounds the variable there (for i < 8 { i++ }: i+1 ≤ 8)
+					var edgeFacts []lin
+					if in, isInstr := leafVals[li].(ssa.Instruction); isInstr && in.Block() != nil {
+						edgeFacts = bc.blockFacts(in.Block())
 					}
-					if h, ok := bc.upper(d); !ok || h > 0 {
-						okAllHi = false
+					if !okdl || dl < 0 {
+						found := false
+						if okdl {
+							for _, f := range edgeFacts {
+								if cf, has := f.t[a2]; has && cf == -1 && len(f.t) == 1 {
+									addLo(f.k + dl) // -a2 + k ≤ 0: a2 ≥ k
+									found = true
+									break
+								}
+							}
+						}
+						if !found {
+							okAllLo = false
+						}
+					}
+					if !okdh || dh > 0 {
+						found := false
+						if okdh {
+							for _, f := range edgeFacts {
+								if cf, has := f.t[a2]; has && cf == 1 && len(f.t) == 1 {
+									addHi(-f.k + dh) // a2 + k ≤ 0: a2 ≤ -k
+									found = true
+									break
+								}
+							}
+						}
+						if !found {
+							okAllHi = false
+						}
 					}
 					inductive = true
 					break
@@ -992,29 +1069,18 @@ func (bc *boundsCtx) atomRange(a atom) (lo, hi int64, hasLo, hasHi bool) {
 			if inductive {
 				continue
 			}
-			l, okl := bc.lower(le)
-			h, okh := bc.upper(le)
-			if !okl {
+			if l, okl := bc.lower(le); okl {
+				addLo(l)
+			} else {
 				okAllLo = false
 			}
-			if !okh {
+			if h, okh := bc.upper(le); okh {
+				addHi(h)
+			} else {
 				okAllHi = false
 			}
-			if first {
-				mlo, mhi = l, h
-				first = false
-			} else {
-				if l < mlo {
-					mlo = l
-				}
-				if h > mhi {
-					mhi = h
-				}
-			}
 		}
-		if !first {
-			tighten(mlo, mhi, okAllLo, okAllHi)
-		}
+		tighten(mlo, mhi, okAllLo && haveLo, okAllHi && haveHi)
 	case *ssa.Extract:
 		// n of (n, err) := Read(buf): 0 ≤ n ≤ len(buf) is a fact added by contractFacts, not a constant range
 		if x.Index == 1 {
@@ -1341,7 +1407,7 @@ func (bc *boundsCtx) Prove(g lin, at ssa.Instruction) bool {
 	if bc.prove(g, facts, 4) {
 		return true
 	}
-	return bc.provePerEtype(g, facts)
+	return bc.provePerEtype(g, facts, at)
 }
 
 // factsAt: branch facts dominating at, facts implied by slice expressions that were evaluated
@@ -1408,7 +1474,7 @@ func (bc *boundsCtx) capAtomLin(v ssa.Value) lin {
 // provePerEtype: when the goal speaks about constant-returning methods of one etype value, prove it
 // separately for every implementation of etype.EType with the constants substituted (the sizes of
 // one etype are correlated — HMAC length ≤ hash size — in a way ranges over all etypes are not).
-func (bc *boundsCtx) provePerEtype(g lin, facts []lin) bool {
+func (bc *boundsCtx) provePerEtype(g lin, facts []lin, at ssa.Instruction) bool {
 	var recv ssa.Value
 	has := false
 	scan := func(l lin) bool {
@@ -1443,6 +1509,9 @@ func (bc *boundsCtx) provePerEtype(g lin, facts []lin) bool {
 				ifacts = append(ifacts, fi)
 			}
 		}
+		if at != nil {
+			ifacts = append(ifacts, bc.extraFacts(ig, ifacts, at)...)
+		}
 		if !bc.prove(ig, ifacts, 4) {
 			return false
 		}
@@ -1466,8 +1535,32 @@ func (bc *boundsCtx) etypeRecvOf(a atom) (ssa.Value, bool) {
 		if r := bc.hmacSumRecv(a.v); r != nil {
 			return r, true
 		}
+	case 'e':
+		for ia := range bc.einfo[a].right.t {
+			if r, ok := bc.etypeRecvOf(ia); ok {
+				return r, true
+			}
+		}
 	}
 	return nil, false
+}
+
+// pureEtype: l is made only of constant methods of one etype value (and constants).
+func (bc *boundsCtx) pureEtype(l lin) bool {
+	var recv ssa.Value
+	n := 0
+	for a := range l.t {
+		if a.kind != 'm' && a.kind != 'q' {
+			return false
+		}
+		r, ok := bc.etypeRecvOf(a)
+		if !ok || (n > 0 && r != recv) {
+			return false
+		}
+		recv = r
+		n++
+	}
+	return n > 0
 }
 
 // hmacSumRecv: v is hmac.New(e.GetHashFunc(), _).Sum(_): returns e.
@@ -1519,6 +1612,31 @@ func (bc *boundsCtx) instantiate(l lin, recv ssa.Value, t types.Type) (lin, bool
 				return lin{}, false
 			}
 			out = out.plus(c * (in.k / qi.c))
+		case 'e':
+			ei := bc.einfo[a]
+			r, ok := bc.instantiate(ei.right, recv, t)
+			if !ok || !r.isConst() || r.k <= 0 {
+				return lin{}, false
+			}
+			l, ok := bc.instantiate(ei.left, recv, t)
+			if !ok {
+				return lin{}, false
+			}
+			if ei.op == token.MUL {
+				out = out.add(l, c*r.k)
+			} else {
+				if l.isConst() {
+					if l.k < 0 {
+						return lin{}, false
+					}
+					out = out.plus(c * (l.k / r.k))
+				} else {
+					qa := atom{kind: 'q', s: bc.linString(l) + fmt.Sprintf("/%d", r.k)}
+					bc.qinfo[qa] = qinfo{l, r.k}
+					bc.names[qa] = "(" + bc.linString(l) + fmt.Sprintf(")/%d", r.k)
+					out = out.add(linAtom(qa), c)
+				}
+			}
 		case 'l':
 			f := bc.w.MethodOf(t, "GetHashFunc")
 			if f == nil {
@@ -1704,7 +1822,7 @@ func (bc *boundsCtx) sameLenParam(f *ssa.Function, depth int) int {
 		return -1
 	}
 	cb := &boundsCtx{w: bc.w, fn: f, intBits: bc.intBits, loadRep: map[*ssa.UnOp]ssa.Value{}, qinfo: map[atom]qinfo{}, names: map[atom]string{},
-		factMem: map[*ssa.BasicBlock][]lin{}, rngBusy: map[atom]bool{}, visitingPhi: map[*ssa.Phi]bool{}, linMemo: map[ssa.Value]lin{}, fitBusy: map[ssa.Value]bool{}}
+		factMem: map[*ssa.BasicBlock][]lin{}, rngBusy: map[atom]bool{}, visitingPhi: map[*ssa.Phi]bool{}, linMemo: map[ssa.Value]lin{}, fitBusy: map[ssa.Value]bool{}, einfo: map[atom]einfo{}}
 	cb.r = bc.r
 	cb.computeLoadReps()
 	paramIdx := func(v ssa.Value) int {
@@ -2006,8 +2124,12 @@ func (bc *boundsCtx) phiFacts(a atom) []lin {
 			}
 			continue
 		}
-		if _, isPhi := bc.canon(e).(*ssa.Phi); isPhi {
-			return nil
+		if ip, isPhi := bc.canon(e).(*ssa.Phi); isPhi {
+			// another loop variable is a fixed initial value only if it is defined strictly above
+			// this loop (a parallel phi of the same header changes along with x)
+			if ip.Block() == x.Block() || !ip.Block().Dominates(x.Block()) {
+				return nil
+			}
 		}
 		if init != nil && bc.linString(*init) != bc.linString(le) {
 			return nil
